@@ -8,7 +8,8 @@ import warnings
 def _ops():
     from pyrates import OperatorTemplate
     v = {'x': 'output(0.0)', 'c': 0.0, 'a': 0.0, 'u': 'input(0.0)', 'ext': 'input(0.0)'}
-    eqs = {1: "x' = c + a*x + u + ext", 2: "x' = ext + u + a*x + c", 3: "x' = (c + u) + (a*x + ext)"}
+    eqs = {1: "x' = c + a*x + u + ext", 2: "x' = ext + u + a*x + c", 3: "x' = (c + u) + (a*x + ext)",
+           4: "x' = a*x + c + (u + ext)"}
     ops = {k: OperatorTemplate(f'lin{k}', equations=[e], variables=dict(v)) for k, e in eqs.items()}
     vd = dict(v, kd=0.0, taud=1.0)
     ops[5] = OperatorTemplate('lin5', equations=["x' = c + a*x + u + ext + kd*past(x, taud)"], variables=vd)
